@@ -118,7 +118,7 @@ def run_history(kind, subtype, els, steps, rng, quant=True, probes=True):
             out.py_fail = ('export', f'export failed after {st}: {type(e).__name__}: {e}', k)
             break
         pr = []
-        if probes:
+        if probes and (k == len(steps) - 1 or rng.random() < 0.25):
             n = len(arr)
             for i in _probe_ints(rng, n):
                 try:
@@ -224,6 +224,11 @@ def python_side(kind, subtype, els, arr, orig, quant, src_q, out=None):
 # --------------------------------------------------------------------------
 # generation
 # --------------------------------------------------------------------------
+AEI = {'multiline': [[[]], [[], []], [[], [], []]],
+       'polygon': [[[]], [[], []]],
+       'multipolygon': [[[[]]], [[[]], []], [[]], [[[], []]], [[[]], [[]]], [[], [[]]]]}
+
+
 def rand_source(rng, kind, subtype):
     isint = subtype.startswith('int')
     n = rng.choice([0, 1, 2, 3, 4, 5, 6, 8])
@@ -232,35 +237,29 @@ def rand_source(rng, kind, subtype):
                           missing_p=rng.choice([0.15, 0.3, 0.0]), empty_p=0.12)
     if n and rng.random() < 0.04:
         els = [None] * n
-    # elements with no coordinate at all below a non-empty outer level make arr[i] raise
-    # (finding getitem-raises:all-empty-inner); they get their own stream, see run()
-    els = [[] if U.is_aei(kind, e) else e for e in els]
+    # elements that are non-empty at the outer level but hold no coordinate at all
+    # ([[]], [[], []], [[[]]], ...): once made arr[i] raise (repaired finding
+    # getitem-raises:all-empty-inner, /repo 0dde5fb)
+    if kind in AEI and n and rng.random() < 0.12:
+        els[rng.randrange(n)] = copy.deepcopy(rng.choice(AEI[kind]))
     return els
 
 
-AEI = {'multiline': [[[]], [[], []], [[], [], []]],
-       'polygon': [[[]], [[], []]],
-       'multipolygon': [[[[]]], [[[]], []], [[]], [[[], []]], [[[]], [[]]]]}
-
-
 def aei_history(rng, kind, subtype):
-    """a history over a source holding all-empty-inner elements; no step that needs a scalar"""
+    """a history over a source certainly holding all-empty-inner elements"""
     els = rand_source(rng, kind, subtype)
     for _ in range(rng.randint(1, 2)):
-        els.insert(rng.randint(0, len(els)), rng.choice(AEI[kind]))
+        els.insert(rng.randint(0, len(els)), copy.deepcopy(rng.choice(AEI[kind])))
     orig = list(range(len(els)))
     steps = []
     for _ in range(rng.randint(1, 6)):
         st = U.rand_step(rng, len(orig))
-        if st['op'] == 'int' or st.get('form') in ('iter', 'series_iloc') and st['op'] == 'int' \
-                or st.get('form') == 'iter' or (st['op'] == 'take' and st['args'][2] == 'geom'):
-            continue
         steps.append(st)
         try:
             orig = U.track(orig, st)
         except Exception:
             pass
-    return els, steps or [{'op': 'copy', 'args': None, 'form': 'copy'}]
+    return els, steps
 
 
 def rand_history(rng, kind, subtype, maxlen=8):
@@ -415,9 +414,21 @@ def shrink(kind, subtype, els, steps, rng, sig, budget_s=60):
 # --------------------------------------------------------------------------
 # run
 # --------------------------------------------------------------------------
+def _single_thread():
+    """the arrays here have <= 20 elements: numba's parallel kernels on 16 spinning OpenMP
+    threads cost 0.3 s per call on a loaded machine; results do not depend on the thread
+    count (that is C18's subject)"""
+    try:
+        import numba
+        numba.set_num_threads(1)
+    except Exception:  # noqa: BLE001
+        pass
+
+
 def run(rep):
     tier = getattr(rep, 'tier_run', rep.tier)
     rng = rep.rng
+    _single_thread()
     rep.rule = ('(a) enumerated small scopes: every slice start/stop/step over a 10x10x7 grid applied '
                 'to a slice of a 4-element array and once more; on a length-3 window (offset 2) of a '
                 '6-element array of each of the 7 kinds every take of <= 2 indices in [-4, 3] with and '
@@ -459,6 +470,7 @@ def run(rep):
     pyfails = []
     mutated = 0
     aei_first = None
+    t_py = time.time()
     for kind, st, els, steps, quant in hist:
         out = run_history(kind, st, els, steps, rng, quant=quant)
         rep.evaluations += 1
@@ -492,11 +504,15 @@ def run(rep):
         rep.violation('getitem-raises:all-empty-inner',
                       f'{kind}: {hit[0]} raised {hit[1]}({hit[2]!r}) on an array holding an element '
                       f'that is non-empty at the outer level but has no coordinates '
-                      f'(e.g. PolygonArray([[[]]], dtype="float64")[0]); the model returns the element',
+                      f'(e.g. PolygonArray([[[]]], dtype="float64")[0]); the model returns the element '
+                      f'(repaired by /repo 0dde5fb: must not happen any more)',
                       {'kind': kind, 'subtype': st, 'elements': els, 'steps': steps})
 
     # ---- the model, inside Coq
-    bad = C.coq_mismatches(IMPORTS, FN, CASE_TY, RES_TY, cases, expected, shard=120)
+    rep.extra['seconds_library'] = round(time.time() - t_py, 1)
+    t_coq = time.time()
+    bad = C.coq_mismatches(IMPORTS, FN, CASE_TY, RES_TY, cases, expected, shard=100)
+    rep.extra['seconds_kernel'] = round(time.time() - t_coq, 1)
     reported = {}
     for meta, (sig, what, k) in pyfails:
         s = f'{sig}:{meta["kind"]}' if meta['kind'] not in sig else sig
@@ -536,6 +552,7 @@ def _un(e):
 
 
 def replay(rep, rp):
+    _single_thread()
     kind, st = rp['kind'], rp['subtype']
     els = _un(rp['elements'])
     steps = rp['steps']
